@@ -29,7 +29,7 @@ func init() {
 	})
 	register(&PropSpec{
 		ID: "C07", Level: "proof",
-		Pkgs:    []string{"./internal/ebnf/parser/spec", "./internal/ebnf/parser"},
+		Pkgs:    []string{"./internal/ebnf/parser/spec", "./internal/ebnf/parser", "./internal/ebnf/lexer"},
 		Prepare: prepareAll,
 		Select: []Selector{
 			{Units: specPkgRe + `Parse\$1$`, Names: `#post\[(c9-|c10-|c11-|c33-|c34-|c0-|errs-kept)`},
@@ -38,6 +38,8 @@ func init() {
 			{Units: specPkgRe + `SymbolTable\.(AddStringTerminal|AddTokenTerminal|AddStringTokenDef|AddRegexTokenDef|Verify|ensureSingleDefs(\$1)?|ensureDistinctDefs(\$1)?|ensureStartSymbol(\$1)?|Definitions(\$1)?|Terminals|NonTerminals)$`},
 			{Units: specPkgRe + `NewSymbolTable$`, Kinds: `^(post|vacuity)$`},
 			{Units: specPkgRe + `Parse$`},
+			// a named token carries its declared string / pattern: the text between the quotes or slashes of the lexeme (shared with C05)
+			{Units: `ebnf/lexer\.Lexer\.evalDFA$`},
 		},
 		Lemmas: []string{"L-STACK (see C12)"},
 		Trusted: []string{
